@@ -184,6 +184,8 @@ def op_pred(case):
     _close("rho", serial["rho"], ref.rho(F), "serial vs reference density (own radius)", 1e-10, "C05:ref:rho")
     # ---- every process grid against the serial world -------------------------------------------
     labels = ["iota0" if cfg["iotaVal"] == 0 else "iota!=0"]
+    if any(g0[0] > cfg["npts"][1] for g0 in case["grids"]):
+        labels.append("more-ranks-than-theta-modes")
     nontriv = False
     runs = [(g0[0] * g0[1], list(g0)) for g0 in case["grids"]] + [(case["ownP"], None)]
     nev = 1
@@ -244,7 +246,7 @@ def read_h5(path):
 @st.composite
 def driver_cases(draw, tier):
     nr = draw(st.integers(5, 6))
-    nq = draw(st.integers(6, 7))
+    nq = draw(st.sampled_from([4, 5, 6, 7]))
     nz = draw(st.integers(7, 8))
     nv = draw(st.integers(5, 6))
     cfg = sim.base_cfg([nr, nq, nz, nv], draw(st.sampled_from([0.0, 0.8])), draw(st.sampled_from([2.0, 239.8081535])),
